@@ -41,4 +41,15 @@ end
 def wfForest (S : Schema) (f : List DNode) : Bool :=
   wfL S f && canonB S f && f.all (fun c => !S.isKey c.sid)
 
+mutual
+/-- What apply does not reproduce bit for bit, and `lyd_compare_siblings(…, FULL_RECURSION | DEFAULTS)` does not look at:
+`LYD_NEW` (set on what apply created; validation clears it) and the default flag of non-presence containers. -/
+def normNode (S : Schema) : DNode → DNode
+  | .inner s f m ks => .inner s { f with new := false, dflt := if S.isNpCont s then false else f.dflt } m (normL S ks)
+  | .term s f m v => .term s { f with new := false } m v
+def normL (S : Schema) : List DNode → List DNode
+  | [] => []
+  | n :: ns => normNode S n :: normL S ns
+end
+
 end LyModel.Diff
